@@ -685,8 +685,13 @@ impl CompositionGraph {
             Ok(())
         })?;
 
-        // Add dependency edges to any existing defined types that reference this one
-        for (other_ty, other) in &self.defined {
+        // Add dependency edges to any existing defined types that reference this one.
+        // The types are visited in node order: the order in which edges are added
+        // determines the order in which the types are encoded, so it must not depend
+        // on the iteration order of the hash map.
+        let mut others: Vec<_> = self.defined.iter().map(|(ty, n)| (*ty, *n)).collect();
+        others.sort_by_key(|(_, n)| *n);
+        for (other_ty, other) in &others {
             other_ty.visit_defined_types(&self.types, &mut |_, id| {
                 let dep_ty = Type::Value(ValueType::Defined(id));
                 if dep_ty == ty
